@@ -391,6 +391,9 @@ func replayOne(w *World, line string) {
 			w.Refund(l)
 		case "tx":
 			switch t[1] {
+			case "chacc":
+				seq, _ := strconv.ParseUint(t[3], 10, 64)
+				w.QueueChange(parseAddr(t[2]), seq, parseAddr(t[4]))
 			case "node":
 				w.QueueNode(parseAddr(t[2]))
 			case "apply":
@@ -813,7 +816,7 @@ func ctMayBurn(w *World, q *QTx) bool {
 func snapshotLines(w *World) []string {
 	var ls []string
 	ls = append(ls, "reset")
-	ls = append(ls, fmt.Sprintf("cfg %d %d %d %d %d %d %d %s", w.fork.height, b2i(w.flags.P002), b2i(w.flags.P015), b2i(w.flags.P017), b2i(w.flags.P018), b2i(w.flags.P026), b2i(w.flags.P027), w.fork.label))
+	ls = append(ls, fmt.Sprintf("cfg %d %d %d %d %d %d %d %d %s", w.fork.height, b2i(w.flags.P002), b2i(w.flags.P015), b2i(w.flags.P017), b2i(w.flags.P018), b2i(w.flags.P026), b2i(w.flags.P027), b2i(w.flags.P014), w.fork.label))
 	u := []string{"univ"}
 	for _, a := range w.univ {
 		u = append(u, hexAddr(a))
